@@ -1,8 +1,238 @@
-//! C08 harness entry (not implemented yet).
+//! C08: compile gridded (tetris) cells to raw geometry through the public API
+//! (`Stack::validate`, `Library::to_raw` = `RawExporter::convert`) and print the shapes of every
+//! cell canonically, IN THE ORDER the exporter produced them.
+//!
+//! Case: {"op":"compile", "stack":S, "cells":[C..]}  |  {"op":"tracks", "stack":S, "n":K}
+//!  S = {"prim":[px,py], "metals":[{"dir":"h"|"v","cutsize":i,"entries":[E..],"offset":i,"overlap":i,
+//!        "flip":bool,"prim":"stack"|"split"|"prim","raw":id|null}], "vias":[{"bot":i|null,"top":i|null,"size":[x,y],"raw":id|null}]}
+//!  E = ["g",w] | ["s",w] | ["p",w] (power rail) | ["n",w] (ground rail) | ["r",[E..],nrep]
+//!  C = {"metals":n,"outline":[x,y],"insts":[{"cell":idx,"loc":[x,y],"rh":b,"rv":b}],
+//!       "cuts":[[tl,tt,cl,ct]..], "assigns":[[net,tl,tt,cl,ct]..]}   (net: integer k -> name "n<k>", 0 -> "")
+//!  A layer id is  layernum*1000 + purposenum(Drawing).
+//! Result compile: {"ok":[[ [lay,x0,y0,x1,y1,net]..] per cell], "pitches":[..]} | {"err":msg} | {"stack_err":msg}
+//!  net: 0 = none, k = "n<k>", -1 = "VDD", -2 = "VSS", -99 = anything else.
+//! Result tracks: {"tracks":[[ [center,span0,span1] x K ] per metal], "pitches":[..]}
 use l21h::{json, Value};
+use layout21raw as raw;
+use layout21tetris::{
+    cell::Cell,
+    coords::{DbUnits, PrimPitches, Xy},
+    instance::Instance,
+    layout::Layout,
+    library::Library,
+    outline::Outline,
+    placement::Place,
+    stack::*,
+    tracks::*,
+    validate::ValidStack,
+};
+use layout21utils::{Ptr, PtrList};
+use raw::{Dir, LayerPurpose, Units};
 
-fn run(_case: &Value) -> Value {
-    json!({"harness_error": "not implemented"})
+fn iz(v: &Value) -> isize {
+    v.as_i64().expect("integer") as isize
+}
+fn uz(v: &Value) -> usize {
+    v.as_u64().expect("unsigned integer") as usize
+}
+
+fn entry(v: &Value) -> TrackEntry {
+    let k = v[0].as_str().expect("entry kind");
+    let w = DbUnits(iz(&v[1]));
+    let ttype = match k {
+        "g" => TrackType::Gap,
+        "s" => TrackType::Signal,
+        "p" => TrackType::Rail(RailKind::Pwr),
+        "n" => TrackType::Rail(RailKind::Gnd),
+        _ => panic!("harness: bad entry kind"),
+    };
+    TrackEntry { ttype, width: w }
+}
+fn spec(v: &Value) -> TrackSpec {
+    if v[0].as_str() == Some("r") {
+        let es: Vec<TrackEntry> = v[1].as_array().expect("repeat entries").iter().map(entry).collect();
+        TrackSpec::Repeat(Repeat::new(es, uz(&v[2])))
+    } else {
+        TrackSpec::Entry(entry(v))
+    }
+}
+
+/// layer id -> (layernum, purposenum)
+fn add_layer(layers: &mut raw::Layers, id: &Value) -> Option<raw::LayerKey> {
+    if id.is_null() {
+        return None;
+    }
+    let id = id.as_i64().expect("layer id");
+    let (num, purp) = ((id / 1000) as i16, (id % 1000) as i16);
+    Some(layers.add(raw::Layer::from_pairs(num, &[(purp, LayerPurpose::Drawing)]).expect("layer")))
+}
+
+fn build_stack(s: &Value) -> (Stack, Ptr<raw::Layers>) {
+    let mut layers = raw::Layers::default();
+    let boundary = layers.add(raw::Layer::from_pairs(236, &[(0, LayerPurpose::Outline)]).expect("boundary"));
+    let mut metals = Vec::new();
+    for (i, m) in s["metals"].as_array().expect("metals").iter().enumerate() {
+        metals.push(MetalLayer {
+            name: format!("met{}", i + 1),
+            dir: if m["dir"].as_str() == Some("h") { Dir::Horiz } else { Dir::Vert },
+            cutsize: DbUnits(iz(&m["cutsize"])),
+            entries: m["entries"].as_array().expect("entries").iter().map(spec).collect(),
+            offset: DbUnits(iz(&m["offset"])),
+            overlap: DbUnits(iz(&m["overlap"])),
+            flip: if m["flip"].as_bool().unwrap_or(false) { FlipMode::EveryOther } else { FlipMode::None },
+            prim: match m["prim"].as_str().unwrap_or("stack") {
+                "prim" => PrimitiveMode::Prim,
+                "split" => PrimitiveMode::Split,
+                _ => PrimitiveMode::Stack,
+            },
+            raw: add_layer(&mut layers, &m["raw"]),
+        });
+    }
+    let mut vias = Vec::new();
+    for (i, v) in s["vias"].as_array().expect("vias").iter().enumerate() {
+        let tgt = |x: &Value| if x.is_null() { ViaTarget::Primitive } else { ViaTarget::Metal(uz(x)) };
+        vias.push(ViaLayer {
+            name: format!("via{}", i),
+            top: tgt(&v["top"]),
+            bot: tgt(&v["bot"]),
+            size: Xy::new(DbUnits(iz(&v["size"][0])), DbUnits(iz(&v["size"][1]))),
+            raw: add_layer(&mut layers, &v["raw"]),
+        });
+    }
+    let layers = Ptr::new(layers);
+    let stack = Stack {
+        units: Units::Nano,
+        prim: PrimitiveLayer::new(Xy::new(DbUnits(iz(&s["prim"][0])), DbUnits(iz(&s["prim"][1])))),
+        metals,
+        vias,
+        rawlayers: Some(layers.clone()),
+        boundary_layer: Some(boundary),
+    };
+    (stack, layers)
+}
+
+fn cross(v: &[Value]) -> TrackCross {
+    TrackCross::from_parts(uz(&v[0]), uz(&v[1]), uz(&v[2]), uz(&v[3]))
+}
+
+fn build_lib(cells: &Value) -> Library {
+    let mut lib = Library::new("c08lib");
+    let mut ptrs: Vec<Ptr<Cell>> = Vec::new();
+    for (ci, c) in cells.as_array().expect("cells").iter().enumerate() {
+        let name = format!("c{}", ci);
+        let outline = Outline::rect(iz(&c["outline"][0]), iz(&c["outline"][1])).expect("outline");
+        let mut insts: Vec<Instance> = Vec::new();
+        for (k, i) in c["insts"].as_array().map(|a| a.as_slice()).unwrap_or(&[]).iter().enumerate() {
+            insts.push(Instance {
+                inst_name: format!("i{}", k),
+                cell: ptrs[uz(&i["cell"])].clone(),
+                loc: Place::Abs(Xy::new(PrimPitches::x(iz(&i["loc"][0])), PrimPitches::y(iz(&i["loc"][1])))),
+                reflect_horiz: i["rh"].as_bool().unwrap_or(false),
+                reflect_vert: i["rv"].as_bool().unwrap_or(false),
+            });
+        }
+        let cuts: Vec<TrackCross> = c["cuts"].as_array().map(|a| a.as_slice()).unwrap_or(&[]).iter()
+            .map(|v| cross(v.as_array().expect("cut"))).collect();
+        let assignments: Vec<Assign> = c["assigns"].as_array().map(|a| a.as_slice()).unwrap_or(&[]).iter()
+            .map(|v| {
+                let a = v.as_array().expect("assign");
+                let k = a[0].as_i64().expect("net");
+                let net = if k == 0 { String::new() } else { format!("n{}", k) };
+                Assign { net, at: cross(&a[1..]) }
+            }).collect();
+        let layout = Layout {
+            name: name.clone(),
+            metals: uz(&c["metals"]),
+            outline,
+            instances: PtrList::from_owned(insts),
+            assignments,
+            cuts,
+            places: Vec::new(),
+        };
+        ptrs.push(lib.cells.insert(Cell::from(layout)));
+    }
+    lib
+}
+
+fn net_code(n: &Option<String>) -> i64 {
+    match n {
+        None => 0,
+        Some(s) if s == "VDD" => -1,
+        Some(s) if s == "VSS" => -2,
+        Some(s) => match s.strip_prefix('n').and_then(|t| t.parse::<i64>().ok()) {
+            Some(k) if k > 0 => k,
+            _ => -99,
+        },
+    }
+}
+
+fn pitches(vs: &ValidStack) -> Vec<i64> {
+    vs.pitches.iter().map(|p| p.0 as i64).collect()
+}
+
+fn run(case: &Value) -> Value {
+    let op = case["op"].as_str().unwrap_or("compile");
+    let (stack, layers) = build_stack(&case["stack"]);
+    let vstack = match stack.validate() {
+        Ok(v) => v,
+        Err(e) => return json!({ "stack_err": format!("{:?}", e) }),
+    };
+    let pit = pitches(&vstack);
+    if op == "tracks" {
+        // center / span of the first n signal tracks of every metal (public ValidMetalLayer API)
+        let n = uz(&case["n"]);
+        let mut out = Vec::new();
+        let mut li = 0;
+        while let Ok(m) = vstack.metal(li) {
+            let mut row = Vec::new();
+            for k in 0..n {
+                let c = m.center(k).expect("center");
+                let (a, b) = m.span(k).expect("span");
+                row.push(json!([c.0, a.0, b.0]));
+            }
+            out.push(Value::Array(row));
+            li += 1;
+        }
+        return json!({ "tracks": out, "pitches": pit });
+    }
+    let lib = build_lib(&case["cells"]);
+    let ncells = lib.cells.len();
+    let rawlib = match lib.to_raw(vstack) {
+        Ok(r) => r,
+        Err(e) => {
+            let mut s = format!("{:?}", e);
+            s.truncate(300);
+            return json!({ "err": s });
+        }
+    };
+    let rawlib = rawlib.read().expect("rawlib lock");
+    let layers = layers.read().expect("layers lock");
+    let mut out = Vec::new();
+    if rawlib.cells.len() != ncells {
+        return json!({ "harness_error": "cell count differs" });
+    }
+    for (ci, cptr) in rawlib.cells.iter().enumerate() {
+        let c = cptr.read().expect("cell lock");
+        if c.name != format!("c{}", ci) {
+            return json!({ "harness_error": "cell order differs" });
+        }
+        let lay = match c.layout.as_ref() {
+            Some(l) => l,
+            None => return json!({ "harness_error": "cell without layout" }),
+        };
+        let mut shapes = Vec::new();
+        for e in lay.elems.iter() {
+            let l = layers.get(e.layer).expect("layer key");
+            let purp = l.num(&e.purpose).map(|p| p as i64).unwrap_or(-1);
+            let id = (l.layernum as i64) * 1000 + purp;
+            match &e.inner {
+                raw::Shape::Rect(r) => shapes.push(json!([id, r.p0.x, r.p0.y, r.p1.x, r.p1.y, net_code(&e.net)])),
+                _ => return json!({ "harness_error": "non-rect element" }),
+            }
+        }
+        out.push(Value::Array(shapes));
+    }
+    json!({ "ok": out, "pitches": pit })
 }
 
 fn main() {
